@@ -1,5 +1,8 @@
 (* Props/C11_src.v — source tie for C11: the Gallina definitions that harness/gen/pysrc.py regenerates on every run from
-   the CURRENT text of IPNetwork.__iadd__ / __isub__ (with network, size, first, last) and the setters used by subnet()
+   the CURRENT text of IPNetwork.__iadd__ / __isub__ (with network, size, first, last), the setters used by subnet() and
+   IPNetwork.supernet with its `while` loop (src_IPNetwork_supernet_loop1, fuel `Z.to_nat w + 2` from the translator's FUEL
+   table; the direct assignments to the local copy's _prefixlen are record updates; hypotheses prefixlen <= p <= width, under
+   which the loop stops at p without leaving the class invariant that the translation of `.cidr` relies on)
    (coq/Gen/pysrc_gen.v) are equal to the hand-written model functions that the theorems of Props/C11.v are about.
    A source edit that changes one of these methods changes the generated term and this theorem stops compiling.
    Nothing but the statement closed by `exact`, followed by Print Assumptions. *)
@@ -7,6 +10,12 @@ From NV Require Import Base.Tac Base.PyVal Model.Ip Model.Subnet Model.SrcPrelud
 Open Scope Z_scope.
 
 Theorem C11_source_tie :
+  (forall ver v p prefixlen, valid_ver ver = true -> p <= width ver -> prefixlen <= p ->
+     src_IPNetwork_supernet ver (width ver) v p prefixlen =
+       omap (map (wnet_net ver)) (supernet (width ver) (v, p) prefixlen)) /\
+  (forall ver v p, valid_ver ver = true -> p <= width ver -> forall fuel acc sv r, 0 <= r <= p ->
+     src_IPNetwork_supernet_loop1 fuel ver (width ver) v p (map (wnet_net ver) acc) {| nver := ver; nval := sv; nplen := r |} =
+       omap (fun rest => map (wnet_net ver) (acc ++ rest)) (supernet_loop fuel (width ver) sv r p)) /\
   (forall ver w v p num, mk_addr ver (net_network w v p) = Ok (ver, net_network w v p) ->
      omap (fun nv => (nv, p)) (src_IPNetwork_iadd ver w v p num) = net_iadd w (v, p) num /\
      omap (fun nv => (nv, p)) (src_IPNetwork_isub ver w v p num) = net_isub w (v, p) num) /\
